@@ -84,6 +84,27 @@ def cli_error_half(chk, qmluic, names, r):
         if p.returncode == 1 and after != before:
             changed = [f for f in after if before.get(f) != after[f]] + [f for f in before if f not in after]
             chk.violation("existing outputs modified although the document has an error: %s" % changed, {"qml": qml, "changed": changed})
+        # (c) the faulted document next to good ones in one invocation, first / in the middle / last: exit 1, an error printed, nothing written for it
+        d2 = tempfile.mkdtemp(prefix="c04m-", dir=chk.work)
+        try:
+            open(os.path.join(d2, "Bad.qml"), "w").write(qml)
+            open(os.path.join(d2, "Good1.qml"), "w").write(gq)
+            open(os.path.join(d2, "Good2.qml"), "w").write(gq)
+            for order in (["Bad.qml", "Good1.qml"], ["Good1.qml", "Bad.qml", "Good2.qml"], ["Good1.qml", "Good2.qml", "Bad.qml"]):
+                for f in os.listdir(d2):
+                    if not f.endswith(".qml"):
+                        os.unlink(os.path.join(d2, f))
+                pm = subprocess.run(cmd[:-1] + order, cwd=d2, env=env, capture_output=True, text=True, timeout=60)
+                left = sorted(f for f in os.listdir(d2) if not f.endswith(".qml"))
+                if pm.returncode == 0:
+                    chk.violation("invocation %s with a faulted document exits 0" % order, {"qml": qml, "argv": order, "stderr": pm.stderr[-800:], "files": left})
+                elif pm.returncode == 1:
+                    if "error" not in pm.stderr:
+                        chk.violation("invocation %s exits 1 without an error diagnostic" % order, {"qml": qml, "argv": order, "stderr": pm.stderr[-800:]})
+                    if any(f in ("bad.ui", "uisupport_bad.h") for f in left):
+                        chk.violation("invocation %s writes outputs for the faulted document: %s" % (order, left), {"qml": qml, "argv": order, "files": left})
+        finally:
+            shutil.rmtree(d2, ignore_errors=True)
     finally:
         shutil.rmtree(d, ignore_errors=True)
 
